@@ -787,23 +787,27 @@ class BptkServer(Flask):
         
         instance = self._instance_manager.get_instance(instance_uuid)
 
-        if(instance.is_locked()):
+        # a step holds the session lock while it runs, so that concurrent stepping requests cannot interleave
+        if(not instance.try_lock()):
             resp = make_response('{"error": "instace is locked"}', 500)
             resp.headers['Content-Type'] = 'application/json'
             resp.headers['Access-Control-Allow-Origin'] = '*'
             return resp
 
-        if not request.is_json:
-            result = instance.run_step()
-        else:
-            content = request.get_json()
-            if "settings" in content:
-                result = instance.run_step(settings=content["settings"], flat="flatResults" in content and content["flatResults"] == True)
+        try:
+            if not request.is_json:
+                result = instance.run_step()
             else:
-                resp = make_response('{"error": "expecting settings to be set"}', 500)
-                resp.headers['Content-Type'] = 'application/json'
-                resp.headers['Access-Control-Allow-Origin'] = '*'
-                return resp
+                content = request.get_json()
+                if "settings" in content:
+                    result = instance.run_step(settings=content["settings"], flat="flatResults" in content and content["flatResults"] == True)
+                else:
+                    resp = make_response('{"error": "expecting settings to be set"}', 500)
+                    resp.headers['Content-Type'] = 'application/json'
+                    resp.headers['Access-Control-Allow-Origin'] = '*'
+                    return resp
+        finally:
+            instance.unlock()
 
         if result is not None:
             resp = make_response(jsonpickle.dumps(result), 200)
@@ -842,18 +846,19 @@ class BptkServer(Flask):
                 resp.headers['Access-Control-Allow-Origin'] = '*'
                 return resp
 
-            if(instance.is_locked()):
-                resp = make_response('{"error": "instace is locked"}', 500)
-                resp.headers['Content-Type'] = 'application/json'
-                resp.headers['Access-Control-Allow-Origin'] = '*'
-                return resp
             content = request.get_json()
             if "numberSteps" in content:
                 if "settings" in content:
-                    instance.lock()
-                    for i in range(0,content["numberSteps"]):
-                        result.append(instance.run_step(settings=content["settings"], flat="flatResults" in content and content["flatResults"] == True))
-                    instance.unlock()
+                    if(not instance.try_lock()):
+                        resp = make_response('{"error": "instace is locked"}', 500)
+                        resp.headers['Content-Type'] = 'application/json'
+                        resp.headers['Access-Control-Allow-Origin'] = '*'
+                        return resp
+                    try:
+                        for i in range(0,content["numberSteps"]):
+                            result.append(instance.run_step(settings=content["settings"], flat="flatResults" in content and content["flatResults"] == True))
+                    finally:
+                        instance.unlock()
                 else:
                     resp = make_response('{"error": "expecting settings to be set"}', 500)
                     resp.headers['Content-Type'] = 'application/json'
@@ -865,7 +870,7 @@ class BptkServer(Flask):
                 resp.headers['Access-Control-Allow-Origin'] = '*'
                 return resp
         except:
-            instance.unlock()
+            pass # the steps that completed are returned; the lock was released where it was taken
         if result is not None:
             resp = make_response(jsonpickle.dumps(result), 200)
         else:
@@ -907,7 +912,7 @@ class BptkServer(Flask):
                 resp.headers['Access-Control-Allow-Origin'] = '*'
                 return resp
 
-        if(instance.is_locked()):
+        if(not instance.try_lock()):
             resp = make_response('{"error": "instace is locked"}', 500)
             resp.headers['Content-Type'] = 'application/json'
             resp.headers['Access-Control-Allow-Origin'] = '*'
@@ -915,7 +920,6 @@ class BptkServer(Flask):
 
         def streamer():
             try:
-                instance.lock()
                 yield "["
                 first = True
                 while instance.progress() <= 1.0:
@@ -934,6 +938,9 @@ class BptkServer(Flask):
                         yield '{"error": "no data was returned from run_step"}'
                 yield "]"
             except:
+                pass
+            finally:
+                # released when the stream ends: by completion, by an error or by the client going away
                 instance.unlock()
             if self._external_state_adapter != None:
                 self._external_state_adapter.save_instance(self._instance_manager._get_instance_state(instance_uuid))
